@@ -70,7 +70,7 @@ def literal_jobs(tier="thorough"):
         J.append(("lz_" + p, 'LitSk("%s", {"lz"})' % p))
         if p in ("float", "double"):
             J.append(("wide_" + p, 'LitSk("%s", {"wide"})' % p))
-    J += [("enums", "SkEnums"), ("sets", "SkSets"), ("strings", "SkStrings"), ("case", "SkCase")]
+    J += [("enums", "SkEnums"), ("enumdup", "SkEnumDup"), ("sets", "SkSets"), ("strings", "SkStrings"), ("case", "SkCase")]
     J += [("desc_" + c, 'DescSk("%s")' % c) for c in DESC_CLASSES]
     for lvl, tag in (("message", "m"), ("group", "g")):
         for hp, ns in (("uint8", (255, 256)), ("uint16", (65535, 65536))):
